@@ -40,9 +40,9 @@ def main(argv):
         print("ANALYSIS-ERROR property=%s no driver (%s)" % (prop, e))
         return 2
     status = report.run_driver(prop, lambda rep: mod.run(rep, tier), mod.LEVEL, tier)
-    if tier == "thorough" and status == 0 and hasattr(mod, "selftest"):
+    if tier == "thorough" and status == 0 and not os.environ.get("AOTOOLS_REPO"):
         from sa import selftest
-        status = selftest.run(prop, mod)
+        status = selftest.run(prop)
     return status
 
 
